@@ -463,7 +463,13 @@ def r5_suspect_once(ctx, f, rep):
         m = ap[0]['args'][1]
         tf = [c for c in p.calls() if c['res'] == 'probe::Probe::take_failed']
         good = len(tf) == 1 and m[0] == 'agg' and q.is_variant(q.agg_field(m, 'state'), 'State', 'Suspect')
-        rep.check(good, 'C12-R5', b.nname, 'the Suspect update comes from take_failed()', construct='suspect-source')
+        if good:
+            failed = ('fieldv', ('call', tf[0]['id']), '0', 'Some')
+            inc, mid = q.agg_field(m, 'incarnation'), q.agg_field(m, 'id')
+            good = inc in (('fieldv', failed, 'incarnation', None),) and \
+                mid in (('fieldv', failed, 'id', None),)
+        rep.check(good, 'C12-R5', b.nname, 'the Suspect update is (identity, incarnation) of the record returned by take_failed(), '
+                  'unchanged', construct='suspect-source', facts={'applied': show(m, b)})
     rep.floor('C12-R5', n, 3, 'probe_random_member paths with a failed round')
     sb = f.fn('probe::Probe::start')
     for p in ctx.paths(f, sb, 'none'):
